@@ -39,6 +39,8 @@ impl AB {
 }
 pub struct Cols { pub mmcs_index_sum: R, pub mmcs_bit: R }
 
+/// the start value of the Merkle leaf-index accumulator is the one the runner writes (0, or the row's own exposed index)
+pub uninterp spec fn index_accumulator_start_is_pinned(sum: int, bit: int) -> bool;
 /// one window of the compact table, as integers
 pub struct Win { pub lo: Seq<int>, pub ni: Seq<int>, pub s: Seq<int>, pub lsum: int, pub nsum: int, pub nbit: int, pub trans: int, pub d: int, pub rate: int, pub width: int }
 impl Win {
@@ -174,6 +176,8 @@ def build():
         ungate_chains(e)
         W = 'Win { lo: iv(local_out@), ni: iv(next_in@), s: iv(next_preprocessed@), lsum: local.mmcs_index_sum.v@, nsum: next.mmcs_index_sum.v@, nbit: next_bit.v@, trans: old(builder).trans@, d: D as int, rate: RATE_EXT as int, width: WIDTH_EXT as int }'
         e.requires('window', f'({W}).wf() && next_bit == next.mmcs_bit')
+        # C11 (open finding): no constraint pins mmcs_index_sum on a Merkle chain-start row (only the recurrence on continuation rows): the exposed index is 2^k * s + index(bits) with s prover-chosen
+        e.ensures('H_the_index_accumulator_of_a_merkle_chain_start_row_is_pinned', f'final(builder).ok@ && ({W}).ns() == 1 && ({W}).mk() == 1 ==> index_accumulator_start_is_pinned(next.mmcs_index_sum.v@, next_bit.v@)')
         e.ensures('exactly_the_chaining_constraints_of_the_compact_table', f'final(builder).ok@ == (old(builder).ok@ && ({W}).chain_ok()) && final(builder).trans == old(builder).trans')
         e.at_start('let ghost w = ' + W.replace('old(builder)', 'builder') + '; let ghost ok0 = builder.ok@;'
                    ' proof { assert(w.width * w.d < 0x10_0000) by (nonlinear_arith) requires 0 < w.d < 0x100, 0 < w.width < 0x1000; }')
